@@ -1,4 +1,5 @@
 pub mod c01;
+pub mod c11_limit;
 pub mod c13;
 pub mod c14;
 pub mod c15;
@@ -95,6 +96,7 @@ fn replay_engine(engine: &str, case: &Value) -> Option<Result<Result<(), String>
         "farm-history-emergency" => replay_case(&farmprops::c09_engine(), case),
         "farm-history-weights" => replay_case(&farmprops::c10_engine(), case),
         "farm-history-lifecycle" => replay_case(&farmprops::c11_engine(), case),
+        "farm-limit" => replay_case(&c11_limit::FarmLimit, case),
         "farm-history-rejections" => replay_case(&farmprops::c20_farm_engine(), case),
         "claim-schedule-twins" => replay_case(&farm_twins::Schedules, case),
         "emergency-decay-twins" => replay_case(&farm_twins::Decay, case),
